@@ -42,16 +42,44 @@ def sup_scenarios(rep, tier, seed):
                 rep.skip("non_finite_precomputed_matrix")
                 continue
             scns.append(scn)
-    # larger training sets (40..64 samples): positions deep in the queue's array, long ordered lists
-    rng6 = random.Random(seed * 1000003 + 406)
-    for i in range(24 if thorough else 6):
-        scn = S.random_float_scenario(rng6, metric=("euclidean", "manhattan", "log_squared_euclidean")[i % 3], n=(40, 48, 64)[i % 3], nq=0, lattice=False, mode="metric", classes=rng6.choice([2, 3, 4]), dim=2, copies=False)
-        scn["Q"] = list(scn["I_train"])
-        scn["history"] = []
-        scns.append(scn)
     # resubstitution after save -> load into an object built with another metric
     scns += S.reload_scenarios(random.Random(seed * 1000003 + 405), 120 if thorough else 32, resub=True)
     return scns
+
+
+def big_resubstitution(rep, tier, seed):
+    """Larger training sets (40..64 samples): positions deep in the queue's array, long ordered lists.  Judged by ResubTrace.tla
+    (C04's own statement only; a whole-forest judgement of such a trace costs OPFSupTrace about 15 s)."""
+    import os
+    rng6 = random.Random(seed * 1000003 + 406)
+    traces, scns = [], []
+    for i in range(700 if tier == "thorough" else 160):
+        scn = S.random_float_scenario(rng6, metric=("euclidean", "manhattan", "log_squared_euclidean", "chebyshev")[i % 4], n=(40, 48, 64, 56)[i % 4], nq=0, lattice=False,
+                                      mode=("pre" if i % 5 == 4 else "metric"), classes=rng6.choice([2, 3, 4]), dim=rng6.choice([2, 2, 3]), copies=False)
+        if not S.materialise_pre(scn):
+            continue
+        scn["Q"] = list(scn["I_train"])
+        tr, why = S.run_scenario(scn, want_events=False)
+        if tr is None:
+            S.handle_skip(rep, scn, why, PIDS)
+            continue
+        n = tr["n"]
+        traces.append({"W": tr["W"], "L": tr["L"], "lab": tr["fin"]["lab"], "res": [q["res"] for q in tr["q"]]})
+        scns.append(scn)
+    if not traces:
+        return
+    path = H.write_json(os.path.join(H.subdir("c04big"), "resub.json"), traces)
+    res = H.run_tlc("ResubTrace", "ResubTrace.cfg", workers=1, env={"TRACE_FILE": path}, timeout=1800, heap="4g", tag="resub")
+    pr = {p[0]: p[1:] for p in res.prints if p and isinstance(p[0], str)}
+    if "PBAD" not in pr or pr.get("PJUDGED", [None])[0] != len(traces):
+        raise H.MachineryError("ResubTrace verdicts not total\n" + res.out[-1500:])
+    rep.add_tlc("ResubTrace (%d training sets of 40..64 samples)" % len(traces), res, kind="trace")
+    rep.count("traces_validated_against_impl", len(traces))
+    rep.cov["large_training_sets_judged"] = len(traces)
+    rep.cov["large_training_sets_tiefree"] = pr["TIEFREE"][0]
+    for tid, B in pr["PBAD"][0]["__set__"]:
+        for clause in B["__set__"]:
+            rep.violation(S.site(scns[tid - 1]), clause, scns[tid - 1]["metric"] if scns[tid - 1]["mode"] == "metric" else "pre", {"scenario": scns[tid - 1], "note": "large training set judged by ResubTrace"})
 
 
 def knn_scenarios(rep, tier, seed):
@@ -83,8 +111,9 @@ def run(tier, seed):
     rep.cov["tiefree_traces"] = out.get("tiefree", 0)
     if out.get("tiefree", 0) < 20:
         raise H.MachineryError("vacuous: only %d tie-free supervised traces" % out.get("tiefree", 0))
+    big_resubstitution(rep, tier, seed)
     out2, items2 = c13.run_items(rep, knn_scenarios(rep, tier, seed), PIDS, "c04k")
-    rep.cov["rule"] = "supervised: tie-free TLC scenarios and generic float data under all admissible metrics, training rows re-predicted (hypothesis TieFree evaluated by TLC on the rank matrix); KNN-supervised: all small rank matrices and tied/duplicate float data, max_k 1..5"
+    rep.cov["rule"] = "supervised: tie-free TLC scenarios and generic float data under all admissible metrics, training rows re-predicted (hypothesis TieFree evaluated by TLC on the rank matrix); 160 (700) training sets of 40..64 samples judged on C04's statement alone by ResubTrace; KNN-supervised: all small rank matrices and tied/duplicate float data, max_k 1..5"
     rep.assumptions = ["TLC", "order-embedding exact", "'all pairwise distances distinct' is read as distinct and non-zero (a zero distance between differently labeled samples ties with the self-distance)"]
     return rep.finish()
 
